@@ -248,3 +248,45 @@ Theorem C06_sync_eq_fsm_outboard : forall (HO : hops) (ob : outboard HO) (q : ra
   valid_outboard_ranges_fsm HO ob q = valid_outboard_ranges HO ob q.
 Proof. exact valid_outboard_ranges_fsm_eq. Qed.
 Print Assumptions C06_sync_eq_fsm_outboard.
+
+(* ======== Final composition (proofs in Proofs/FinalVal.v) ========
+   created_store HO data bs ob (Props/C03.v, C03_created_store_def; C03_created_by_store: every store returned
+   by a creation entry point; C07_converges: every fully delivered state of a decode history). *)
+From BaoV Require Import Spec.NodeSpec Proofs.FinalStore Proofs.FinalVal.
+
+(* the intact-store premises of C06_intact_complete / C06_outboard_intact_complete hold for a created store, so
+   on the blob's own data both validators report exactly the touched groups (one group: the whole blob,
+   whatever the query); the fsm validators return the same as the sync ones on such a store, for any data and query *)
+Theorem C06_created_store_complete : forall (HO : hops), hash_ok HO ->
+  forall (data : bytes HO) (bs : N) (ob : outboard HO),
+  blen HO data <= 2 ^ 63 -> bs <= 10 -> created_store HO data bs ob ->
+  forall q : ranges, wf_ranges q = true ->
+  (loads_ok HO ob (blen HO data) bs /\ forall ga, path_true HO data bs ob ga) /\
+  (2 <= sp_blocks (blen HO data) bs ->
+     valid_ranges HO ob data q =
+     (flat_map (fun ga => if touchedb q (blen HO data) bs ga
+                          then [(grp_start bs ga, grp_end (blen HO data) bs ga)] else [])
+               (chunk_range_list 0 (sp_blocks (blen HO data) bs)), Ok tt) /\
+     valid_outboard_ranges HO ob q =
+     (flat_map (fun ga => if touchedb q (blen HO data) bs ga
+                          then [(grp_start bs ga, grp_end (blen HO data) bs ga)] else [])
+               (chunk_range_list 0 (sp_blocks (blen HO data) bs)), Ok tt)) /\
+  (sp_blocks (blen HO data) bs = 1 ->
+     valid_ranges HO ob data q = ([(0, chunks (blen HO data))], Ok tt) /\
+     valid_outboard_ranges HO ob q = ([(0, chunks (blen HO data))], Ok tt)) /\
+  (forall (d : bytes HO) (q0 : ranges),
+     valid_ranges_fsm HO ob d q0 = valid_ranges HO ob d q0 /\
+     valid_outboard_ranges_fsm HO ob q0 = valid_outboard_ranges HO ob q0).
+Proof. exact c06_created_store_complete. Qed.
+Print Assumptions C06_created_store_complete.
+
+(* C06_sync_eq_fsm with the premise restricted to the nodes of the tree (it holds for every pre-sized store:
+   C07_sized_loads; the unrestricted premise fails for io-backed stores at nodes beyond the tree) *)
+Theorem C06_sync_eq_fsm_tree : forall (HO : hops) (size bs : N), size <= 2 ^ 63 -> bs <= 10 ->
+  forall ob : outboard HO, ob_tree ob = mkTree size bs ->
+  (forall nd, In nd (sp_pre_nodes size bs) -> load_fsm HO ob nd = load_sync HO ob nd) ->
+  forall (d : bytes HO) (q : ranges),
+  valid_ranges_fsm HO ob d q = valid_ranges HO ob d q /\
+  valid_outboard_ranges_fsm HO ob q = valid_outboard_ranges HO ob q.
+Proof. exact c06_sync_eq_fsm_tree. Qed.
+Print Assumptions C06_sync_eq_fsm_tree.
